@@ -26,6 +26,9 @@ import (
 
 func TestMain(m *testing.M) { rec.Main(m, "C16") }
 
+// ruleMore describes what was added to the exploration in the build phase.
+const ruleMore = "; write faults: prlimit --fsize with an absolute limit or a limit k bytes below the size of the i-th largest file of the package"
+
 const rule = "configurations: a subset of the flags (-out, -name in both spellings, -debug, -verbose, -help, -version, none) x input class (valid, syntax error, semantic error, invalid pattern, token conflict, LALR conflict, missing file, directory) " +
 	"x pre-existing state of the output location (missing, a file, an empty directory, <name> present as directory / file / symlink to a directory / dangling symlink, target files already present, unrelated files) x name class " +
 	"(valid identifier, Unicode letters, keyword, predeclared, blank identifier, digit first, dash, path-like, empty => from the grammar); oracle from a recursive snapshot (path, type, mode, size, SHA-256, link target) before and after: " +
@@ -452,7 +455,7 @@ func genConfig(t *rapid.T) Config {
 }
 
 func TestConfigurations(t *testing.T) {
-	rec.Rule(rule)
+	rec.Rule(rule + ruleMore)
 	rec.Assume("write faults are injected with a file-size limit (prlimit --fsize: a write beyond the limit fails with EFBIG) when prlimit is installed; permission faults (EACCES) cannot be injected as root and are not claimed; a predeclared identifier as package name may be accepted or rejected")
 	if _, err := os.Stat(os.Getenv("VERIF_EMERGE_BIN")); err != nil {
 		t.Skip("emerge binary not built")
